@@ -83,8 +83,11 @@ def run(tier):
         cuts = pool.map(ctldrv.cut_cases, [(specs[k::16], wd, k) for k in range(16)])
         # sub-ranges of traced programs: the map file has the whole trace (END itself, addresses below START and above END)
         beys = pool.map(ctldrv.beyond_cases, [(sd * 67 + k, 40 if tier == 'quick' else 500, wd) for k in range(16)])
+        # no code map: an RST with inline arguments, then text (of characters that are opcodes) inside the same code block, -r
+        rtxs = pool.map(ctldrv.rsttext_cases, [(sd * 71 + k, 60 if tier == 'quick' else 700, wd) for k in range(16)])
     ft = [c for p in fts for c in p]
-    out = [c for p in outs for c in p] + [c for p in rsts for c in p] + [c for p in cuts for c in p] + [c for p in beys for c in p]
+    out = [c for p in outs for c in p] + [c for p in rsts for c in p] + [c for p in cuts for c in p] + [c for p in beys for c in p] \
+        + [c for p in rtxs for c in p]
     log('C14: %d find-terminal calls, %d sna2ctl runs' % (len(ft), len(out)))
     cases = [{k: c[k] for k in FT_KEYS} for c in ft] + [{k: c[k] for k in OUT_KEYS} for c in out]
     full = ft + out
@@ -133,10 +136,21 @@ def run(tier):
                                       'END_is_jump_target': sum(1 for c in mm if c.get('end_is_target') and c['end'] in c['map_outside'])}
         if not (n_end and n_below and n_above and rep.extra['maps_%s' % fmt]['END_is_jump_target']):
             raise MachineryError('vacuous C14 run: code maps in format %s: %s' % (fmt, rep.extra['maps_%s' % fmt]))
+    # text inside a code block after an RST with arguments (no code map, -r): where the code resumes after the text
+    rt = [c for c in out if c['image_kind'] == 'rsttext' and c['rt_handled_site'] and c['rt_text_in_code']]
+    rep.extra['rsttext_runs'] = sum(1 for c in out if c['image_kind'] == 'rsttext')
+    rep.extra['rsttext_runs_r_text_in_code_block_after_handled_rst'] = len(rt)
+    rep.extra['rsttext_runs_.._resume_address_differs_without_handler'] = sum(1 for c in rt if c['rt_resume_differs'])
+    rep.extra['rsttext_runs_.._and_is_inside_an_instruction'] = sum(1 for c in rt if c['rt_resume_differs'] and c['rt_resume_inside'])
+    rep.extra['rsttext_runs_.._and_a_decoding_from_there_runs_into_the_next_block'] = sum(1 for c in rt if c['rt_resume_differs'] and c['rt_overrun'])
+    rep.extra['rsttext_runs_.._word_argument'] = sum(1 for c in rt if c['rt_resume_differs'] and ':W' in c['rstcfg'])
+    for k in list(rep.extra):
+        if k.startswith('rsttext_runs') and not rep.extra[k]:
+            raise MachineryError('vacuous C14 run: %s = 0' % k)
     for c in ft:
         rep.count(('ft', tuple(c['len']), tuple(c['isend']), str(c['pre']), c['from'], c['limit'], c['ctl']))
     for c in out:
-        rep.count(('out', c['image_kind'], tuple(c['args'][:6]), len(c['map']), tuple(c['image']) if c['image_kind'] in ('rst', 'top', 'cut') else 0))
+        rep.count(('out', c['image_kind'], tuple(c['args'][:6]), len(c['map']), tuple(c['image']) if c['image_kind'] in ('rst', 'top', 'cut', 'rsttext') else 0))
     rep.sample({k: ft[0][k] for k in FT_KEYS})
     rep.sample({k: out[0][k] for k in ('start', 'end', 'args', 'dirs', 'map')})
     for i, clause in fails:
@@ -160,6 +174,8 @@ def run(tier):
                 'code maps: 8 formats (Z80 / SpecEmu map, rzxplay, Fuse profile, Spud / SpecEmu / Zero dec+hex logs; logs unsorted with '
                 'repeats), a share lists addresses outside the range too (END, START-1, START-k, END+1, END+k, 65535); beyond: sub-ranges of '
                 'traced programs with END at an executed CALL/JP target and the whole trace in the map; '
+                'rsttext (no map): filler + code with RST n + arguments (first bytes of multi-byte instructions) + 5..30 text characters '
+                'that are opcodes + short tail ending in RET/JP, x -r / none x RSTHandlerConfig x TextMinLengthCode; '
                 'top/cut: 49 instruction patterns (every prefix class, undefined slots) x every cut position x 4 preambles x {image ends at '
                 '65535 with / without -e, explicit -e below the top with the rest of the instruction in memory} x code map (none, straight '
                 'line with / without the cut instruction) x -r x -C (quick: 3 of the 4 preambles and one -r/-C combination per placement, rotating with the seed); '
